@@ -308,9 +308,17 @@ def extract_tables(fa):
 
 
 def check_tables(fa, chk):
+    try:
+        text = extract_tables(fa)
+    except AttributeError as ex:
+        # the tables are private data of rewrite.py: when they are not found under their names (a refactoring may rename or
+        # restructure them) the table sub-check is skipped - the differential evaluation below judges the rewriter anyway
+        chk.note("relational tables of rewrite.py not found under their names (%s): table sub-check skipped" % ex)
+        chk.cov["relop_table_rows_checked"] = 0
+        return 0
     wd = tlc.workdir()
     with open(os.path.join(wd, "RelopTables.tla"), "w") as f:
-        f.write(extract_tables(fa))
+        f.write(text)
     for fn in ("MC_Relop.tla", "MC_Relop.cfg"):
         with open(os.path.join(tlc.SPEC, fn)) as f, open(os.path.join(wd, fn), "w") as g:
             g.write(f.read())
